@@ -801,7 +801,9 @@ class BufferAsyncCalls(Generic[T]):
         """
         try:
             if inputs:  # Could be empty if all empty iterators
-                await self.func(inputs)
+                # Pass a copy: the function may consume (mutate) it and
+                # the original is needed again if the function fails
+                await self.func(set(inputs))
         except BaseException as e:  # noqa
             logging.exception("Failed to run %s, retrying", self.func)
             return False
